@@ -85,7 +85,7 @@ def build(base, mix, flavour):
 def shards(tier):
     names = list(SOURCES)
     out = []
-    sizes = (1, 2, 3)
+    sizes = (1, 2, 3) if tier == "quick" else (1, 2, 3, 4)
     for base in BASES:
         for r in sizes:
             for mix in itertools.combinations(names, r):
